@@ -86,6 +86,42 @@ CLAIMS = {
         "#guarded; the full product constructor x certificate x server behaviour (60 cases) runs through the real Dial under "
         "virtual time, incl. a caller mutating its config after construction.",
    note="crypto/tls and crypto/x509 are trusted through the `verify` contract."),
+ 'C01': dict(technique='Lean 4 proof (transport LTS invariants over all reachable states) + regenerated facts + controlled-scheduler histories judged by Lean monitors',
+   text="Model/Transport.lean: one endpoint as an LTS at the granularity of the code's synchronisation sites (every channel operation, select arm, close, mutex section is one action; any number of callers, notifiers, handlers, closers, frames; hostile peer and user as environment). Theorems (Props/C01.lean): issued seqnos pairwise distinct (seq_distinct); a call frame reaches the writer only while the pending table maps its seqno to the issuing call (pending_before_wire); the result buffer and slot of a call only ever receive responses carrying its own seqno, whatever the peer sends (reply_routing, result_is_own_corrected, result_taken_from_buffer); each delivered request invokes its handler at most once with that frame's seqno and argument (invoke_once); at most one reply per invocation, carrying the request's seqno (one_reply). With C02's round trip this gives argument / tags / result equality end to end. The full 'returned value = buffer' statement is kept as a comment with its proved counterexample (duplicated reply, known finding C12). Known finding (open): a handler result too large for a frame gets NO reply. Tie: the statements / select arms / channel capacities of every modelled function are regenerated from /repo and #guarded per property; the real code runs under a controlled scheduler (every goroutine of an instrumented copy parks at every sync statement, one released at a time, seeded; synctest virtual time) in generated two-endpoint sessions (concurrent calls / compressed calls / notifications both ways, cancels, timeouts, external / handler / repeated Close, cuts, fault at every scheduling step, hostile injected frames, payloads around the frame limit) and the totally ordered observable history is judged by Lean monitors.",
+   note='Go channel/select/once/mutex semantics and the memory model at synchronisation granularity are modelled; handler invocation equality of arguments end-to-end composes C01 with C02 (not a single theorem).'),
+ 'C03': dict(technique='Lean 4 proof (encodeFrame lemmas + write-log invariant of the transport LTS) + byte-exact wire run around the limit + scheduler histories',
+   text="Model/Transport.lean: one endpoint as an LTS at the granularity of the code's synchronisation sites (every channel operation, select arm, close, mutex section is one action; any number of callers, notifiers, handlers, closers, frames; hostile peer and user as environment). Theorems (Props/C03.lean): what encodeFrame hands out is one whole frame within the limit whose prefix decodes to its length and which a receiver with the same max accepts (encodeFrame_whole, with the two regenerated comparisons); oversize content is refused (oversize_refused) and the refusal changes nothing but the sender's own record — nothing handed over, nothing written (oversize_is_local); the write log has no duplicates and only bundles encodeFrame accepted, each written by the single writer (writes_are_frames); an abandoned send (context ended, encoder closed, too big) never reaches the write log (abandon_is_whole). Tie: the statements / select arms / channel capacities of every modelled function are regenerated from /repo and #guarded per property; the real code runs under a controlled scheduler (every goroutine of an instrumented copy parks at every sync statement, one released at a time, seeded; synctest virtual time) in generated two-endpoint sessions (concurrent calls / compressed calls / notifications both ways, cancels, timeouts, external / handler / repeated Close, cuts, fault at every scheduling step, hostile injected frames, payloads around the frame limit) and the totally ordered observable history is judged by Lean monitors. Plus the wire run: frame limit set to content-k..content+k for every kind; every Write must be one frame or the send refused, and a follow-up send must succeed.",
+   note='net.Conn.Write is assumed all-or-error.'),
+ 'C07': dict(technique='Lean 4 proof (lifecycle invariants of the transport LTS) + scheduler histories with atomic-safe observer sequences',
+   text="Model/Transport.lean: one endpoint as an LTS at the granularity of the code's synchronisation sites (every channel operation, select arm, close, mutex section is one action; any number of callers, notifiers, handlers, closers, frames; hostile peer and user as environment). Theorems (Props/C07.lean): the done channel closes at most once and stopCh is set exactly then (done_once); connected never becomes true again (connected_monotone); Err is nil before and one fixed non-nil value after, also for a local Close — the error is assigned inside the once (err_stable; full strength after fix 4614c8d); a response / cancellation for an unknown seqno changes nothing but the history (stray_*_ignored); an unknown method gets exactly one reply with the same seqno, no handler, no task entry, an unknown notification is dropped (notfound_*); any other error makes the loop close the transport (fatal_closes). Tie: the statements / select arms / channel capacities of every modelled function are regenerated from /repo and #guarded per property; the real code runs under a controlled scheduler (every goroutine of an instrumented copy parks at every sync statement, one released at a time, seeded; synctest virtual time) in generated two-endpoint sessions (concurrent calls / compressed calls / notifications both ways, cancels, timeouts, external / handler / repeated Close, cuts, fault at every scheduling step, hostile injected frames, payloads around the frame limit) and the totally ordered observable history is judged by Lean monitors. Observers read Err, Done, IsConnected, Done, Err in an order whose implications are valid under any interleaving.",
+   note='Known finding (open, not in the model): two ends answering not-found calls over a synchronous connection block each other.'),
+ 'C08': dict(technique='Lean 4 proof (own-step enabledness + write-log order in the transport LTS) + cancel at every scheduling step',
+   text="Model/Transport.lean: one endpoint as an LTS at the granularity of the code's synchronisation sites (every channel operation, select arm, close, mutex section is one action; any number of callers, notifiers, handlers, closers, frames; hostile peer and user as environment). Theorems (Props/C08.lean): once its context has ended a caller has an enabled step of its own at every wait, whatever peer, writer and connection do (cancel_returns_without_help), and the rest of the cancel path never waits (cancel_path_never_blocks); it returns the context's error (cancel_outcome); the cancel frame carries the call's seqno and follows the call frame in the write log (cancel_follows_call, via the FIFO single writer); a delivered cancel cancels exactly the handler registered under that seqno, and a running uncancelled handler is registered (cancel_reaches_handler, task_registered_before_next_frame under the peer-seqno hypothesis). Tie: the statements / select arms / channel capacities of every modelled function are regenerated from /repo and #guarded per property; the real code runs under a controlled scheduler (every goroutine of an instrumented copy parks at every sync statement, one released at a time, seeded; synctest virtual time) in generated two-endpoint sessions (concurrent calls / compressed calls / notifications both ways, cancels, timeouts, external / handler / repeated Close, cuts, fault at every scheduling step, hostile injected frames, payloads around the frame limit) and the totally ordered observable history is judged by Lean monitors.",
+   note="'Promptly' is own-step enabledness in the model; real time is observed under virtual time."),
+ 'C09': dict(technique='Lean 4 proof (ghost cancel causes in the transport LTS) + scheduler histories',
+   text="Model/Transport.lean: one endpoint as an LTS at the granularity of the code's synchronisation sites (every channel operation, select arm, close, mutex section is one action; any number of callers, notifiers, handlers, closers, frames; hostile peer and user as environment). Theorems (Props/C09.lean), under the explicit peer hypothesis (call seqnos non-negative and distinct — what C01 proves of this library's client): task keys of distinct handlers differ, notifications included (each has its own key since fix cd104ca); every cancellation of a handler's context has a legitimate cause: a delivered cancel for its own seqno, the transport closing, or its own end (cancel_justified); when the task loop stops every started, unfinished handler is cancelled (close_cancels_all). Tie: the statements / select arms / channel capacities of every modelled function are regenerated from /repo and #guarded per property; the real code runs under a controlled scheduler (every goroutine of an instrumented copy parks at every sync statement, one released at a time, seeded; synctest virtual time) in generated two-endpoint sessions (concurrent calls / compressed calls / notifications both ways, cancels, timeouts, external / handler / repeated Close, cuts, fault at every scheduling step, hostile injected frames, payloads around the frame limit) and the totally ordered observable history is judged by Lean monitors.",
+   note='A hostile peer reusing seqnos is outside the hypothesis (the model shows the cross-cancel as cause otherEnd).'),
+ 'C10': dict(technique='Lean 4 proof (enabledness after stop, Close termination in the transport LTS) + close / cut at every scheduling step',
+   text="Model/Transport.lean: one endpoint as an LTS at the granularity of the code's synchronisation sites (every channel operation, select arm, close, mutex section is one action; any number of callers, notifiers, handlers, closers, frames; hostile peer and user as environment). Theorems (Props/C10.lean): once the stop has propagated every blocked call, notification and reply hand-off has an enabled own step returning io.EOF / its own result (stopped_*_not_blocked, stop_returns_eof); calls and notifications issued after the stop fail at once with io.EOF without touching writer or tables (after_stop_eof*); Close waits only for the task loop and the writer, each of which always has an enabled step until it has exited, every other step of Close is always enabled (close_waits_only_for_live_goroutines, close_steps_enabled); raced / repeated Close: one closer inside the once, the others wait and return (close_idempotent). Tie: the statements / select arms / channel capacities of every modelled function are regenerated from /repo and #guarded per property; the real code runs under a controlled scheduler (every goroutine of an instrumented copy parks at every sync statement, one released at a time, seeded; synctest virtual time) in generated two-endpoint sessions (concurrent calls / compressed calls / notifications both ways, cancels, timeouts, external / handler / repeated Close, cuts, fault at every scheduling step, hostile injected frames, payloads around the frame limit) and the totally ordered observable history is judged by Lean monitors.",
+   note='Bounded time = bounded model steps. Known finding (open, outside the model): Close called from the send-notifier callback waits for the writer, i.e. for itself.'),
+ 'C11': dict(technique='Lean 4 proof (quiescence ⇒ all goroutines exited; pending table exact) + leak scan after every scenario',
+   text="Model/Transport.lean: one endpoint as an LTS at the granularity of the code's synchronisation sites (every channel operation, select arm, close, mutex section is one action; any number of callers, notifiers, handlers, closers, frames; hostile peer and user as environment). Theorems (Props/C11.lean): the pending table holds exactly the calls between AddCall and RemoveCall, so a returned call is absent (pending_exact, returned_call_removed); the task table holds only registered handlers under their own key (tasks_exact); in every quiescent state in which Close has completed and handlers have returned, writer, task loop, receive loop, every handler goroutine and every async cancel sender have exited and every caller / notifier has returned (no_leak, no_api_call_left; full strength after fixes 4b64cc8, c38d505). Tie: the statements / select arms / channel capacities of every modelled function are regenerated from /repo and #guarded per property; the real code runs under a controlled scheduler (every goroutine of an instrumented copy parks at every sync statement, one released at a time, seeded; synctest virtual time) in generated two-endpoint sessions (concurrent calls / compressed calls / notifications both ways, cancels, timeouts, external / handler / repeated Close, cuts, fault at every scheduling step, hostile injected frames, payloads around the frame limit) and the totally ordered observable history is judged by Lean monitors. After every scenario runtime.Stack is scanned for library frames and the pending table is read.",
+   note="Real goroutine exit is observed (stack scan, synctest), proved for the model's goroutines."),
+ 'C12': dict(technique='Lean 4 proof (partial theorem + proved counterexample trace) + scheduler histories with a yield point before the result decode',
+   text="Model/Transport.lean: one endpoint as an LTS at the granularity of the code's synchronisation sites (every channel operation, select arm, close, mutex section is one action; any number of callers, notifiers, handlers, closers, frames; hostile peer and user as environment). The full statement does NOT hold of the code: late_write_counterexample proves, on a concrete trace of the model (look-up, cancellation, return, decode), a write after the return; it is reproduced on the real code (known findings C12-late-write-*). Proved: only the receive loop's decode of a looked-up reply ever changes a buffer (writes_only_in_decode_corrected); every write precedes the signal, so a call returning by receiving its reply has that reply's writes before its return (write_before_signal); once a call has returned and the loop holds no looked-up reference to it, its buffer never changes again for any continuation (no_late_write_partial). Tie: the statements / select arms / channel capacities of every modelled function are regenerated from /repo and #guarded per property; the real code runs under a controlled scheduler (every goroutine of an instrumented copy parks at every sync statement, one released at a time, seeded; synctest virtual time) in generated two-endpoint sessions (concurrent calls / compressed calls / notifications both ways, cancels, timeouts, external / handler / repeated Close, cuts, fault at every scheduling step, hostile injected frames, payloads around the frame limit) and the totally ordered observable history is judged by Lean monitors. The monitor classifies late writes: returned-without-reply and duplicated-reply match the two open findings; a late write after a normal return with reply is a new violation.",
+   note='Open known findings: C12-late-write-after-ctx-return, C12-late-write-duplicated-reply.'),
+ 'C13': dict(technique='Lean 4 proof (write log / notifier log / history invariants of the transport LTS) + scheduler histories',
+   text="Model/Transport.lean: one endpoint as an LTS at the granularity of the code's synchronisation sites (every channel operation, select arm, close, mutex section is one action; any number of callers, notifiers, handlers, closers, frames; hostile peer and user as environment). Theorems (Props/C13.lean): frames reach the connection in hand-off order and the write log is exactly the history's writes (wire_order_is_handoff_order: single FIFO writer, hence program order); seqnos never reused and below the counter (seq_never_reused); the notifier log is exactly, in wire order, the calls and notifications handed to the connection, each fired immediately before its Write with the frame's seqno, never for replies, cancels or abandoned sends (notifier_exact); a cancel frame of a sent call is written after the call frame (cancel_after_call). Tie: the statements / select arms / channel capacities of every modelled function are regenerated from /repo and #guarded per property; the real code runs under a controlled scheduler (every goroutine of an instrumented copy parks at every sync statement, one released at a time, seeded; synctest virtual time) in generated two-endpoint sessions (concurrent calls / compressed calls / notifications both ways, cancels, timeouts, external / handler / repeated Close, cuts, fault at every scheduling step, hostile injected frames, payloads around the frame limit) and the totally ordered observable history is judged by Lean monitors.",
+   note=''),
+ 'C14': dict(technique='Lean 4 proof (connection LTS invariants) + scripted-transport scheduler histories + real built-in transports run',
+   text="Model/Conn.lean: the Connection's mutex-protected fields, reconnect sequences (doReconnect / RetryNotifyWithContext / connect), waiters, Shutdown, disconnections as an LTS; dial / OnConnect outcomes, retry verdicts and backoff stops are environment choices; any number of waiters and sequences. Theorems (Props/C14.lean): at most one sequence alive, it is the registered one, at most one dial in progress (one_sequence); each sequence announces itself exactly once, first-status iff first and not forced (announced_once); one error notification per retried failure; finalize at most once, and a sequence ending without error finalized exactly one registered transport with a successful OnConnect (finalize_then_release); every waiter released by a sequence returns that sequence's slot value, stable after close (released_with_same_outcome, slot_stable_after_close); after cancellation at most one more dial and every cancellable step leads to the release (shutdown_bounded). Tie: connection.go functions #guarded; a real Connection over a scripted transport/handler under the controlled scheduler with virtual time (commands, forced reconnects, disconnects, fast-forward, Shutdown racing), histories judged by Lean monitors; the real plain and TLS connection transports over an in-memory dialer for the close clause.",
+   note="keybase/backoff's retry loop is modelled; the close clause of the built-in transports is checked by the run, not modelled. Observation (outside the clause): a TLS dial failing in the handshake leaves its base connection open."),
+ 'C15': dict(technique='Lean 4 proof (connection LTS + DoCommand decision logic) + scripted command outcomes under the scheduler',
+   text="Theorems (Props/C15.lean) over Model/Conn.lean: a published client always belongs to a transport whose OnConnect succeeded and whose protocols are registered, and a waiter is told 'connected' only when a client is published (runs_with_published_client, client_stays); DoCommand's decision after one execution: success returned, retriable error re-run after backoff with one notification or returned when the policy stops, io.EOF waits for the connection and runs again, anything else returned unchanged (retry_exactly_when_due); a waiting command whose context ended can return at once with the context's error (wait_interruptible); a non-retriable connect error ends the sequence with that error in the slot the waiters read. Tie: DoCommand / waitForConnection / connect #guarded; scripted command outcomes x connection faults x cancellations under the controlled scheduler, judged by Lean monitors.",
+   note='keybase/backoff.RetryNotify is modelled.'),
+ 'C20': dict(technique='Lean 4 proof (record counters in the transport LTS) + storage contents vs write log in scheduler histories',
+   text="Model/Transport.lean: one endpoint as an LTS at the granularity of the code's synchronisation sites (every channel operation, select arm, close, mutex section is one action; any number of callers, notifiers, handlers, closers, frames; hostile peer and user as environment). Theorems (Props/C20.lean): a call that entered dispatch.Call has exactly one record once returned, however it ended (one_record_per_call); as many cancel records as handleCancel invocations (one_record_per_cancel); one per notification; exactly one per served call once past Reply, none for notifications (one_record_per_served_call). Finish-twice refusal and the tag format are #guarded statements. The SIZE formula (frame bytes + payload of the matching reply / request) is checked by the correspondence run against the write log, not proved. Tie: the statements / select arms / channel capacities of every modelled function are regenerated from /repo and #guarded per property; the real code runs under a controlled scheduler (every goroutine of an instrumented copy parks at every sync statement, one released at a time, seeded; synctest virtual time) in generated two-endpoint sessions (concurrent calls / compressed calls / notifications both ways, cancels, timeouts, external / handler / repeated Close, cuts, fault at every scheduling step, hostile injected frames, payloads around the frame limit) and the totally ordered observable history is judged by Lean monitors.",
+   note='Hypothesis: compressing the argument / result succeeds (the early return precedes the deferred record). A duplicated reply adds its payload once more (accepted by the monitor).'),
 }
 
 PENDING = ("the Lean obligations of this property (transport / connection model) are still being discharged in this round; "
